@@ -1,5 +1,5 @@
 (* C19 — Header collection answers always agree with its contents.  Pinned statements only. *)
-From KV Require Import Lib.Bytes Model.Headers Spec.HeaderStore Proofs.Headers.
+From KV Require Import Lib.Bytes Model.Headers Model.Parser Spec.HeaderStore Proofs.Headers Proofs.HeadersParsed.
 
 (* after ANY sequence of add / replace / remove / set_* operations: what is stored is what the
    history says, and every cached answer equals a fresh evaluation of the stored fields *)
@@ -35,3 +35,14 @@ Proof. vm_compute. reflexivity. Qed.
 Example C19_ex_overflow : content_length (hrun [OAdd (bs "content-length") (bs "18446744073709551616")]) = None
   /\ content_length (hrun [OAdd (bs "content-length") (bs "18446744073709551615")]) = Some 18446744073709551615%N.
 Proof. vm_compute. split; reflexivity. Qed.
+
+(* "and after parsing a head": the collection reported for an accepted request / response head is the result of an
+   add-history (one add per field line, in order), so every cached answer agrees with the stored fields *)
+Theorem C19_parsed_request : forall s r, parse_request s = Ok r ->
+  exists fs, q_hdrs r = hrun (add_ops fs) /\ agrees (q_hdrs r) (add_ops fs).
+Proof. exact parsed_request_headers_agree. Qed.
+Theorem C19_parsed_response : forall s r, parse_response s = Ok r ->
+  exists fs, r_hdrs r = hrun (add_ops fs) /\ agrees (r_hdrs r) (add_ops fs).
+Proof. exact parsed_response_headers_agree. Qed.
+Print Assumptions C19_parsed_request.
+Print Assumptions C19_parsed_response.
